@@ -20,3 +20,60 @@ EXPLANATION = "Typestate contracts: every yield of the real generator drives a g
 LEVEL_TEXT = "Deductive typestate proof over the real generators (ghost DFA advanced at every yield, loop invariants); sequential."
 LEVEL_NOTE = "Trusted: queue/threading models (E5), pyvc semantics (E9). Multi-worker schedules are not decided."
 TECHNIQUE = "contract-based deductive verification: typestate (ghost DFA) contracts on the real generator functions, loop invariants, z3"
+
+
+# ------------------------------------------------------------------------------------------------- phases.execute: every phase is routed to exactly one executor, its events forwarded unchanged
+from pyvc.values import VObj as _VObj, VGen as _VGen  # noqa: E402
+
+PH = "schemathesis.engine.phases"
+R.extern["warnings.simplefilter"] = lambda it, a, k: None
+
+
+def _executor_stub(name):
+    def returns(it, env):
+        evs = [fresh_opaque(it, "EngineEvent"), fresh_opaque(it, "EngineEvent")]
+        it.ghost["routed"] = it.ghost["routed"] + [(name, env["ctx"] if "ctx" in env else env["engine"], env["phase"], evs)]
+        return _VGen(evs)
+
+    return returns
+
+
+R.contract(PH + ".probes:execute", args={"ctx": Opq("Any"), "phase": Opq("Any")}, returns=_executor_stub("probes"), trusted=True, note="own contract below")
+R.contract(PH + ".stateful:execute", args={"ctx": Opq("Any"), "phase": Opq("Any")}, returns=_executor_stub("stateful"), trusted=True, note="execute_state_machine_loop contracts")
+_ue = R.contracts[PH + ".unit:execute"]
+_ue.returns = _executor_stub("unit")
+_ue.call_ensures = {}
+_ue.modifies = {}
+_ue.requires_are_representation_invariant = True
+R.contract(
+    PH + ":execute",
+    variant="dispatch",
+    prop="C11",
+    args={"ctx": Opq("EngineCtx"), "phase": Obj(PH + ":Phase", name=EnumOf(PH + ":PhaseName"), is_supported=Bool, is_enabled=Bool, skip_reason=NoneT)},
+    ghost={"routed": []},
+    raises=[],
+    ensures={
+        "exactly_one_executor_runs_the_phase": "length(ghost('routed')) == 1 and ghost('routed')[0][1] is ctx and ghost('routed')[0][2] is phase",
+        "the_executor_is_the_one_of_the_phase": "ghost('routed')[0][0] == {'PROBING': 'probes', 'EXAMPLES': 'unit', 'COVERAGE': 'unit', 'FUZZING': 'unit', 'STATEFUL_TESTING': 'stateful'}[phase.name.name]",
+        "its_events_are_forwarded_unchanged_in_order": "length(result) == 2 and result[0] is ghost('routed')[0][3][0] and result[1] is ghost('routed')[0][3][1]",
+    },
+    replayable=False,
+)
+# probes.execute: exactly one PhaseFinished for this phase, whatever the probes did
+R.contract(PH + ".probes:run", args={"schema": Opq("Any"), "session": Opq("Any"), "config": Opq("Any")}, trusted=True,
+           returns=ListOf(Obj("spec:ProbeRun", probe=Opq("Probe"), is_failure=Bool, error=OneOf(NoneT, Opq("ProbeError"))), [0, 1, 2]),
+           note="sends the capability probes; connection errors are recorded on the ProbeRun, not raised")
+R.contract(PH + ".probes:ProbePayload", abstract_only=True, args={}, returns=Opq("ProbePayload"), note="dataclass constructor")
+R.contract(
+    PH + ".probes:execute",
+    variant="events",
+    prop="C11",
+    args={"ctx": Obj("spec:ProbeCtx", schema=Opq("Schema"), session=Opq("Session"), config=Obj("spec:ProbeCfg", network=Opq("Network"))), "phase": Opq("PhaseRef")},
+    raises=[],
+    ensures={
+        "one_phase_finished_for_this_phase_and_nothing_else": "length(result) == 1 and is_instance(result[0], 'PhaseFinished') and result[0].phase is phase",
+        "status_is_success_or_error": "result[0].status.name in ('SUCCESS', 'ERROR')",
+    },
+    bounded_note="up to 2 probe results",
+    replayable=False,
+)
